@@ -40,6 +40,20 @@ def replay_flt_{tag}(title, {ARGS}):
         cond(f"doc_{k}", k + 14, f'pinned(title, {k}, "/documentation")', holes)
         cond(f"docinner_{k}", k + 15, f'pinned(title, {k}, "/documentation")', holes + f" and title[{k + 14}] in TCH")
         cond(f"test_{k}", k + 11, f'pinned(title, {k}, "/testcases")', holes + f" and title[{k + 10}] in TCH")
+    # two consecutive pages through the real loop (state carried between iterations); titles differ so that the store keeps both
+    out.append('''
+def seq_two(sel1: bool, mi1: int, text1: str, red1: bool, tgt1: str, sel2: bool, mi2: int, text2: str, red2: bool, tgt2: str) -> bool:
+    """
+    pre: 0 <= mi1 < len(MODELS) and 0 <= mi2 < len(MODELS)
+    pre: len(text1) <= 1 and len(text2) <= 1 and len(tgt1) <= 1 and len(tgt2) <= 1
+    post: _
+    """
+    return two_pages_ok("P", sel1, mi1, text1, red1, tgt1, "Q", sel2, mi2, text2, red2, tgt2)
+
+
+def replay_seq_two(sel1, mi1, text1, red1, tgt1, sel2, mi2, text2, red2, tgt2):
+    return replay_two_pages("P", sel1, mi1, text1, red1, tgt1, "Q", sel2, mi2, text2, red2, tgt2)
+''')
     # add_page: canonical dump title stored unchanged; body/model/redirect pass through
     for ns, pfx in ((0, ""), (10, "Template:"), (828, "Module:"), (14, "Category:")):
         for k in range(1, L + 1):
@@ -104,6 +118,7 @@ def run(rep: C.Report) -> None:
             rep,
             H,
             {
+                "^seq_": dict(name="Ob2b two consecutive pages: the record stored for a page depends on that page only", functions=["dumpparser.py:parse_dump_xml loop incl. the statements preceding it in the with block (AST slice)"], bounds="2 page elements, each: selected or not, 9 content models, redirect or not, text/target <= 1 symbolic char"),
                 "^flt_": dict(name="Ob2 page filter and field pass-through of parse_dump_xml", functions=["dumpparser.py:parse_dump_xml loop body (AST slice)"], bounds=f"title skeletons with 1..{2 if quick else 3} symbolic chars over {{a,T,:,/,space,é}}; 4 namespaces, selected or not; 9 content models; text/redirect target <= 2 symbolic chars"),
                 "^addp_": dict(name="Ob1 add_page stores a canonical title unchanged and passes the fields through", functions=["core.py:Wtp.add_page", "core.py:Wtp._template_to_body"], bounds=f"prefix of the namespace + 1..{2 if quick else 3} symbolic chars; body <= 3 symbolic chars; model None or given; redirect or not"),
                 "^defaults_ok": dict(name="Ob3 add_default_templates adds exactly the absent helpers and never overwrites", functions=["dumpparser.py:add_default_templates"], bounds="all 16 presence patterns of the four helper templates"),
